@@ -285,7 +285,9 @@ func evaluateNoUnionInstanceMethod(
 		methodT = conditioningMethodReturn(m, class, methodT, evaluatedArgs)
 	}
 
-	if methodT.IsBuiltinMethod() {
+	// configured methods are shared table entries whatever frame they were
+	// configured in (ActiveRecord::Base, Builtin::GPIO::Error): work on a copy
+	if methodT.IsBuiltinMethod() || methodT.DefinedFrame != "" {
 		methodT = methodT.DeepCopy()
 	}
 
